@@ -3,17 +3,6 @@ import OrdModel.Proofs.BuilderFull2
 namespace Ord.Builder
 open Ord Ord.Outcome
 
-/-- the condition under which `strip_value` splits off a change output: `R` = recipient output
-value after `add_value`, `n` inputs, `pre` = the optional alignment output, `c` = next unused
-change script -/
-def strips (env : Env) (r : Request) (n : Nat) (pre : List TxOut) (R : Nat) (c : Script) : Prop :=
-  env.fee (vsize n (pre ++ [(r.recipient, R)])) ≤ R ∧
-  R - env.fee (vsize n (pre ++ [(r.recipient, R)])) > (maxTarget r.target).1 ∧
-  R - (maxTarget r.target).2 >
-    env.dust c + env.fee (vsize n (pre ++ [(r.recipient, R)]) + ADDITIONAL_OUTPUT_VBYTES)
-
-instance (env r n pre R c) : Decidable (strips env r n pre R c) := by unfold strips; infer_instance
-
 theorem maxTarget_le (t : Target) : (maxTarget t).2 ≤ (maxTarget t).1 := by
   cases t <;> simp [maxTarget, MAX_POSTAGE, TARGET_POSTAGE]
 
